@@ -194,39 +194,50 @@ def run_case(chk: Check, modes, ordering, dims, coords, vals, entry, requests, p
 
 
 def malformed(chk: Check, drv: Driver):
-    """Out-of-range / negative coordinates must be rejected (C09 last sentence)."""
+    """Out-of-range / negative coordinates must be rejected (C09 last sentence): alone, and hidden among
+    valid entries (any position in the input order, any fiber)."""
     from tensora import Tensor
 
     rng = chk.rng
     n = 0
+    reqs, meta = [], []
     for order in (1, 2, 3):
         fmts = all_formats(order)
-        for modes, ordering in (fmts if chk.tier == "thorough" else rng.sample(fmts, min(len(fmts), 10))):
-            dims = tuple(rng.choice([1, 2, 3]) for _ in range(order))
+        for modes, ordering in (fmts if chk.tier == "thorough" else rng.sample(fmts, min(len(fmts), 14))):
+            dims = tuple(rng.choice([2, 3]) for _ in range(order))
+            universe = list(itertools.product(*[range(d) for d in dims]))
             for bad_dim in range(order):
                 for bad_val in (dims[bad_dim], dims[bad_dim] + 3, -1):
-                    coord = [rng.randrange(d) for d in dims]
-                    coord[bad_dim] = bad_val
-                    case = {"format": fmt_str(modes, ordering), "dims": list(dims), "coords": [coord], "vals": [1.0], "malformed": True}
-                    n += 1
-                    chk.case(("malformed", fmt_str(modes, ordering), bad_dim, bad_val < 0))
-                    rejected = False
-                    try:
-                        t = Tensor.from_aos([tuple(coord)], [1.0], dimensions=dims, format=_fmt_obj(modes, ordering))
-                    except (ValueError, IndexError, OverflowError):
-                        rejected = True
-                    level = list(ordering).index(bad_dim)
-                    r = drv.ask("ENCODE", [Atom(m) for m in modes], list(ordering), list(dims), [[coord, 1]])
-                    model_rejected = isinstance(r, list) and r and r[0] == "err"
-                    chk.corr("encode-malformed", 1, int(model_rejected != rejected))
-                    if model_rejected != rejected:
-                        chk.unproved_obligation("correspondence:encode-malformed", "model and code disagree on rejection", case)
-                    if not rejected:
-                        f = chk.match_known(lambda f: f.get("signature", {}).get("predicate") == "oob-on-dense-level" and modes[level] == "d")
-                        if f:
-                            chk.known(f["id"], f["what"])
-                        else:
-                            chk.violation("out-of-range coordinate silently accepted", case, got=sorted(t.to_dok(explicit_zeros=True).items()))
+                    for companions in (0, rng.randint(1, 3), len(universe)):
+                        valid = rng.sample(universe, min(companions, len(universe)))
+                        coord = [rng.randrange(d) for d in dims]
+                        coord[bad_dim] = bad_val
+                        entries = [tuple(c) for c in valid]
+                        entries.insert(rng.randint(0, len(entries)), tuple(coord))
+                        vals = [1.0] * len(entries)
+                        case = {"format": fmt_str(modes, ordering), "dims": list(dims), "coords": [list(c) for c in entries], "vals": vals, "malformed": True}
+                        n += 1
+                        chk.case(("malformed", fmt_str(modes, ordering), bad_dim, bad_val < 0, companions))
+                        rejected = False
+                        t = None
+                        try:
+                            t = Tensor.from_aos(entries, vals, dimensions=dims, format=_fmt_obj(modes, ordering))
+                        except (ValueError, IndexError, OverflowError):
+                            rejected = True
+                        level = list(ordering).index(bad_dim)
+                        reqs.append("ENCODE " + " ".join(sx(x) for x in ([Atom(m) for m in modes], list(ordering), list(dims), [[list(c), 1] for c in entries])))
+                        meta.append((case, rejected, modes[level], t))
+    for (case, rejected, level_mode, t), r in zip(meta, drv.batch(reqs)):
+        model_rejected = isinstance(r, list) and r and r[0] == "err"
+        chk.corr("encode-malformed", 1, int(model_rejected != rejected))
+        if model_rejected != rejected:
+            chk.unproved_obligation("correspondence:encode-malformed", "model and code disagree on rejection", case)
+        if not rejected:
+            f = chk.match_known(lambda f: f.get("signature", {}).get("predicate") == "oob-on-dense-level" and level_mode == "d")
+            if f:
+                chk.known(f["id"], f["what"])
+            else:
+                chk.violation("out-of-range coordinate silently accepted", case, got=sorted(t.to_dok(explicit_zeros=True).items()) if t is not None else None)
     chk.count("malformed_cases", n)
 
 
